@@ -73,11 +73,18 @@ def worker(job):
 
     seed, n, page, wkind, step, nfail = job
     rng = random.Random(seed)
-    lm = sorted([T0 + rng.randint(0, 3 * max(1, n)) * 60 for _ in range(n)], reverse=True)
+    if wkind == "tie":
+        # blocks of equal modification times, the window starts exactly on one of them (ties straddle page boundaries)
+        lm = sorted([T0 + rng.randint(0, max(1, n // 3)) * 60 for _ in range(n)], reverse=True)
+    else:
+        lm = sorted([T0 + rng.randint(0, 3 * max(1, n)) * 60 for _ in range(n)], reverse=True)
     versions = [{"id": i, "lm": t} for i, t in enumerate(lm)]
     lo, hi = (min(lm) if lm else T0), (max(lm) if lm else T0 + 600)
     pick = lambda: rng.choice(lm) if lm and rng.random() < 0.5 else rng.randint(lo - 120, hi + 120)  # noqa: E731
     start = stop = None
+    if wkind == "tie":
+        start = rng.choice(lm) if lm else T0
+        stop = rng.choice([None, start, max(lm) if lm else None])
     if wkind in ("both", "start"):
         start = pick()
     if wkind in ("both", "stop"):
@@ -184,7 +191,7 @@ def run(chk):
                         "transport (s3transfer futures, timeouts) is outside the model; failures are injected as futures whose result() raises"]
     rng = random.Random(chk.seed * 97 + 19)
     jobs = []
-    wk = ["both", "start", "stop", "none"]
+    wk = ["both", "start", "stop", "none", "tie"]
     if chk.tier == "quick":
         for n in [0, 1, 2, 3, 5, 8, 13, 21, 40]:
             for page in sorted({1, 2, max(1, n // 3), max(1, n - 1), n, n + 1} - {0}):
